@@ -1,7 +1,1378 @@
-//! C10: not implemented yet.
-use crate::util::Args;
+//! C10: PDR verdicts (patronus::mc::pdr) on small bit-vector systems.
+//!
+//! One case per (system, configuration) pair, one line each:
+//! (case ID (family F) (class C) (solver z3|cvc5) (gen on|off) (sseed N) (sys ...)
+//!       (impl success|unknown|timeout|(fail (wit ...))|(err "text")|(panic "loc" "msg")|(crash "status"))
+//!       (sim ok|na-free-state|<reason>) (script (queries N) (sessions N) (dupdef "name"|none) (hash H)) (ms N))
+//!
+//! Every run of the implementation happens in a child process (this binary re-executed with
+//! `--worker 1`), in its own process group, under a wall-clock watchdog; a hang, an abort or a
+//! panic of the implementation therefore never hangs or kills the check.  The solver is started
+//! by patronus itself (`SmtLibSolver::start`), through the wrapper scripts in harness/solver-wrap
+//! which are placed first on PATH and only add the seed options.
+//!
+//! `class` is the harness's own explicit-state classification (computed with patronus'
+//! interpreter); it is used ONLY for the coverage statistics and to steer the generator, never as
+//! the oracle (the oracle is the extracted `reach_spec`, see ocaml/driver/c10.ml).
+use crate::dump::*;
+use crate::exprgen::*;
+use crate::rng::Rng;
+use crate::sexp::{Sexp, read_cases};
+use crate::sysgen::{build_sys, dump_sys};
+use crate::util::*;
+use baa::{BitVecOps, BitVecValue, Value};
+use patronus::expr::*;
+use patronus::mc::{InitValue, ModelCheckResult, Witness, bmc, pdr};
+use patronus::sim::{InitKind, Interpreter, Simulator};
+use patronus::smt::{CVC5, Solver, YICES2, Z3};
+use patronus::system::*;
+use std::collections::{HashMap, HashSet, VecDeque};
+use std::io::{Read, Write};
+use std::sync::{Arc, Mutex};
+use std::time::{Duration, Instant};
 
-pub fn run(_args: &Args) {
-    eprintln!("C10: harness module not implemented yet");
-    std::process::exit(2);
+const WATCHDOG_S: u64 = 60;
+
+pub fn run(args: &Args) {
+    if args.get("worker").is_some() {
+        worker(args);
+        return;
+    }
+    parent(args);
+}
+
+// ------------------------------------------------------------------------------------------------
+// generator
+// ------------------------------------------------------------------------------------------------
+
+fn lit(ctx: &mut Context, w: WidthInt, v: u64) -> ExprRef {
+    let m = if w >= 64 { u64::MAX } else { (1u64 << w) - 1 };
+    ctx.bit_vec_val(v & m, w)
+}
+
+fn add_state(ctx: &mut Context, sys: &mut TransitionSystem, symbol: ExprRef, init: Option<ExprRef>, next: Option<ExprRef>) {
+    sys.add_state(ctx, State { symbol, init, next });
+}
+
+/// up-counter, optional enable, optional wrap at m / saturation; bad: comparison with a target
+fn fam_counter(ctx: &mut Context, rng: &mut Rng) -> TransitionSystem {
+    let mut sys = TransitionSystem::new("counter".to_string());
+    let w = if rng.chance(1, 5) { rng.range(7, 10) } else { rng.range(2, 6) } as WidthInt;
+    let c = ctx.bv_symbol("c", w);
+    let max = (1u64 << w) - 1;
+    let en = if rng.chance(1, 2) {
+        let e = ctx.bv_symbol("en", 1);
+        sys.add_input(ctx, e);
+        Some(e)
+    } else {
+        None
+    };
+    let stepv = if rng.chance(1, 4) { 2 * rng.range(0, 1) + 1 + 2 * rng.below(2) } else { 1 };
+    let stepl = lit(ctx, w, stepv);
+    let inc = ctx.add(c, stepl);
+    // bound m in 2..=max+1
+    let m = rng.range(2, max + 1);
+    let kind = rng.below(4);
+    let body = match kind {
+        0 => inc, // free running, wraps at 2^w
+        1 => {
+            // wrap at m:  c >= m-1 ? 0 : c+1   (stepv forced to 1 semantics by comparison)
+            let ml = lit(ctx, w, m - 1);
+            let ge = ctx.greater_or_equal(c, ml);
+            let z = lit(ctx, w, 0);
+            let one = lit(ctx, w, 1);
+            let inc1 = ctx.add(c, one);
+            ctx.ite(ge, z, inc1)
+        }
+        2 => {
+            // saturate at m-1
+            let ml = lit(ctx, w, m - 1);
+            let ge = ctx.greater_or_equal(c, ml);
+            let one = lit(ctx, w, 1);
+            let inc1 = ctx.add(c, one);
+            ctx.ite(ge, c, inc1)
+        }
+        _ => {
+            // count down from init to 0 and stay
+            let z = lit(ctx, w, 0);
+            let isz = ctx.equal(c, z);
+            let one = lit(ctx, w, 1);
+            let dec = ctx.sub(c, one);
+            ctx.ite(isz, c, dec)
+        }
+    };
+    let next = match en {
+        Some(e) => ctx.ite(e, body, c),
+        None => body,
+    };
+    let init_v = if kind == 3 { rng.range(0, max.min(14)) } else if rng.chance(1, 4) { rng.range(0, max.min(3)) } else { 0 };
+    let init = lit(ctx, w, init_v);
+    add_state(ctx, &mut sys, c, Some(init), Some(next));
+    // optionally a sticky flag that remembers having seen a value
+    let flag = if rng.chance(1, 3) {
+        let f = ctx.bv_symbol("f", 1);
+        let t2 = rng.range(0, max.min(13));
+        let t2l = lit(ctx, w, t2);
+        let hit = ctx.equal(c, t2l);
+        let nf = ctx.or(f, hit);
+        let z1 = lit(ctx, 1, 0);
+        add_state(ctx, &mut sys, f, Some(z1), Some(nf));
+        Some(f)
+    } else {
+        None
+    };
+    for _ in 0..rng.range(1, 2) {
+        let t = if rng.chance(2, 3) { rng.range(0, max.min(13)) } else { rng.range(0, max) };
+        let tl = lit(ctx, w, t);
+        let b = match rng.below(5) {
+            0 | 1 => ctx.equal(c, tl),
+            2 => ctx.greater(c, tl),
+            3 => {
+                // two bits of the counter
+                let hi = ctx.slice(c, w - 1, w - 1);
+                let lo = ctx.slice(c, 0, 0);
+                ctx.and(hi, lo)
+            }
+            _ => {
+                let e = ctx.equal(c, tl);
+                match flag {
+                    Some(f) => {
+                        let nf = ctx.not(f);
+                        ctx.and(e, nf)
+                    }
+                    None => e,
+                }
+            }
+        };
+        sys.bad_states.push(b);
+    }
+    if rng.chance(1, 6) {
+        // a constraint on the state alone: the value t is forbidden, executions stop before it
+        let t = rng.range(1, max.min(12));
+        let tl = lit(ctx, w, t);
+        let c_ne = ctx.distinct(c, tl);
+        sys.constraints.push(c_ne);
+    }
+    if let (Some(e), true) = (en, rng.chance(1, 4)) {
+        // constraint: enable only while below a limit
+        let lim = rng.range(1, max);
+        let ll = lit(ctx, w, lim);
+        let below = ctx.greater(ll, c);
+        let cons = ctx.implies(e, below);
+        sys.constraints.push(cons);
+    }
+    sys
+}
+
+/// shift register of 1-bit states fed by an input; optional constraint "no two consecutive ones"
+fn fam_shift(ctx: &mut Context, rng: &mut Rng) -> TransitionSystem {
+    let mut sys = TransitionSystem::new("shift".to_string());
+    let n = rng.range(3, 8) as usize;
+    let inp = ctx.bv_symbol("in", 1);
+    sys.add_input(ctx, inp);
+    let regs: Vec<ExprRef> = (0..n).map(|k| ctx.bv_symbol(&format!("r{k}"), 1)).collect();
+    let z = lit(ctx, 1, 0);
+    let with_init = !rng.chance(1, 6);
+    for k in 0..n {
+        let next = if k == 0 { inp } else { regs[k - 1] };
+        let init = if with_init { Some(z) } else { None };
+        add_state(ctx, &mut sys, regs[k], init, Some(next));
+    }
+    let cons_kind = rng.below(3);
+    if cons_kind == 0 {
+        // never a one right after a one
+        let both = ctx.and(inp, regs[0]);
+        let c = ctx.not(both);
+        sys.constraints.push(c);
+    }
+    // bad: the register (or a window of it) shows a pattern
+    for _ in 0..rng.range(1, 2) {
+        let lo = rng.below(n as u64 - 1) as usize;
+        let hi = rng.range(lo as u64 + 1, n as u64 - 1) as usize;
+        let mut acc = ctx.get_true();
+        let force_adjacent = cons_kind == 0 && rng.chance(1, 2);
+        let adj_at = rng.range(lo as u64, hi as u64 - 1) as usize;
+        for k in lo..=hi {
+            let mut want_one = rng.chance(1, 2);
+            if force_adjacent && (k == adj_at || k == adj_at + 1) {
+                want_one = true;
+            }
+            let l = if want_one { regs[k] } else { ctx.not(regs[k]) };
+            acc = ctx.and(acc, l);
+        }
+        sys.bad_states.push(acc);
+    }
+    sys
+}
+
+/// two registers updated in lock step; the relation between them is the inductive invariant
+fn fam_lockstep(ctx: &mut Context, rng: &mut Rng) -> TransitionSystem {
+    let mut sys = TransitionSystem::new("lockstep".to_string());
+    // bit-level cubes express the relational invariant badly: 2 x 3 bits already need 2 000-3 700 queries
+    let w: WidthInt = 2;
+    let max = (1u64 << w) - 1;
+    let a = ctx.bv_symbol("a", w);
+    let b = ctx.bv_symbol("b", w);
+    let en = ctx.bv_symbol("en", 1);
+    sys.add_input(ctx, en);
+    let en2 = if rng.chance(1, 4) {
+        let e = ctx.bv_symbol("en2", 1);
+        sys.add_input(ctx, e);
+        e
+    } else {
+        en
+    };
+    let off = if rng.chance(1, 2) { 0 } else { rng.range(1, max) };
+    let one = lit(ctx, w, 1);
+    let (na, nb) = match rng.below(3) {
+        0 => {
+            let ia = ctx.add(a, one);
+            let ib = ctx.add(b, one);
+            (ia, ib)
+        }
+        1 => {
+            // a counts up, b counts down: a + b stays constant
+            let ia = ctx.add(a, one);
+            let ib = ctx.sub(b, one);
+            (ia, ib)
+        }
+        _ => {
+            // swap
+            (b, a)
+        }
+    };
+    let na = ctx.ite(en, na, a);
+    let nb = ctx.ite(en2, nb, b);
+    let a0 = rng.range(0, max);
+    let la = lit(ctx, w, a0);
+    let lb = lit(ctx, w, (a0 + off) & max);
+    add_state(ctx, &mut sys, a, Some(la), Some(na));
+    add_state(ctx, &mut sys, b, Some(lb), Some(nb));
+    let t = rng.range(0, max);
+    let tl = lit(ctx, w, t);
+    let bad = match rng.below(4) {
+        0 => {
+            // relation broken: b != a + off   (safe for the in-step variants)
+            let offl = lit(ctx, w, off);
+            let s = ctx.add(a, offl);
+            ctx.distinct(b, s)
+        }
+        1 => {
+            // sum changes
+            let s = ctx.add(a, b);
+            let s0 = lit(ctx, w, (a0 + a0 + off) & max);
+            ctx.distinct(s, s0)
+        }
+        2 => {
+            let ea = ctx.equal(a, tl);
+            let t2 = lit(ctx, w, rng.range(0, max));
+            let eb = ctx.equal(b, t2);
+            ctx.and(ea, eb)
+        }
+        _ => {
+            let ea = ctx.equal(a, tl);
+            let offl = lit(ctx, w, off);
+            let s = ctx.add(tl, offl);
+            let nb = ctx.distinct(b, s);
+            ctx.and(ea, nb)
+        }
+    };
+    sys.bad_states.push(bad);
+    sys
+}
+
+/// one-hot ring / rotating register
+fn fam_ring(ctx: &mut Context, rng: &mut Rng) -> TransitionSystem {
+    let mut sys = TransitionSystem::new("ring".to_string());
+    let w = rng.range(3, 5) as WidthInt;
+    let max = (1u64 << w) - 1;
+    let r = ctx.bv_symbol("r", w);
+    let hi = ctx.slice(r, w - 1, w - 1);
+    let lo = ctx.slice(r, w - 2, 0);
+    let rot = ctx.concat(lo, hi);
+    let next = if rng.chance(1, 2) {
+        let en = ctx.bv_symbol("en", 1);
+        sys.add_input(ctx, en);
+        ctx.ite(en, rot, r)
+    } else {
+        rot
+    };
+    let init_v = match rng.below(3) {
+        0 => 1,
+        1 => 1u64 << rng.below(w as u64),
+        _ => 3, // two adjacent tokens
+    };
+    let init = lit(ctx, w, init_v);
+    add_state(ctx, &mut sys, r, Some(init), Some(next));
+    for _ in 0..rng.range(1, 2) {
+        let bad = match rng.below(4) {
+            0 => {
+                let z = lit(ctx, w, 0);
+                ctx.equal(r, z)
+            }
+            1 => {
+                // a rotation of the initial value, or not
+                let t = rng.range(0, max);
+                let tl = lit(ctx, w, t);
+                ctx.equal(r, tl)
+            }
+            2 => {
+                // two particular bits set at once
+                let i = rng.below(w as u64) as WidthInt;
+                let mut j = rng.below(w as u64) as WidthInt;
+                if j == i {
+                    j = (i + 2) % w;
+                }
+                let bi = ctx.slice(r, i, i);
+                let bj = ctx.slice(r, j, j);
+                ctx.and(bi, bj)
+            }
+            _ => {
+                let k = rng.below(w as u64);
+                let tl = lit(ctx, w, 1u64 << k);
+                ctx.equal(r, tl)
+            }
+        };
+        sys.bad_states.push(bad);
+    }
+    sys
+}
+
+/// explicit finite-state machine: next state is a table over (state, 1-bit input)
+fn fam_fsm(ctx: &mut Context, rng: &mut Rng) -> TransitionSystem {
+    let mut sys = TransitionSystem::new("fsm".to_string());
+    let w = rng.range(2, 4) as WidthInt;
+    let n = 1u64 << w;
+    let s = ctx.bv_symbol("s", w);
+    let x = ctx.bv_symbol("x", 1);
+    sys.add_input(ctx, x);
+    // sparse successor structure so that long shortest paths and unreachable parts are common
+    let perm: Vec<u64> = {
+        let mut p: Vec<u64> = (0..n).collect();
+        for i in (1..n as usize).rev() {
+            let j = rng.below(i as u64 + 1) as usize;
+            p.swap(i, j);
+        }
+        p
+    };
+    let reach_n = rng.range(2, n); // only the first reach_n states of the permutation form the live part
+    let mut next = s;
+    for k in 0..n {
+        let pos = perm.iter().position(|&v| v == k).unwrap() as u64;
+        let (t0, t1) = if pos < reach_n {
+            let fwd = perm[((pos + 1) % reach_n) as usize];
+            let other = perm[rng.below(reach_n) as usize];
+            if rng.chance(1, 2) { (fwd, other) } else { (fwd, k) }
+        } else {
+            (perm[rng.below(n) as usize], perm[rng.below(n) as usize])
+        };
+        let kl = lit(ctx, w, k);
+        let is_k = ctx.equal(s, kl);
+        let l0 = lit(ctx, w, t0);
+        let l1 = lit(ctx, w, t1);
+        let tgt = ctx.ite(x, l1, l0);
+        next = ctx.ite(is_k, tgt, next);
+    }
+    let init = lit(ctx, w, perm[0]);
+    add_state(ctx, &mut sys, s, Some(init), Some(next));
+    for _ in 0..rng.range(1, 3) {
+        let t = rng.below(n);
+        let tl = lit(ctx, w, t);
+        let b = ctx.equal(s, tl);
+        let b = if rng.chance(1, 4) { ctx.and(b, x) } else { b };
+        sys.bad_states.push(b);
+    }
+    if rng.chance(1, 6) {
+        // a forbidden state: executions cannot pass through it
+        let t = perm[rng.range(1, reach_n - 1) as usize];
+        let tl = lit(ctx, w, t);
+        let c = ctx.distinct(s, tl);
+        sys.constraints.push(c);
+    }
+    if rng.chance(1, 4) {
+        // constraint: input low in one particular state
+        let t = perm[rng.below(reach_n) as usize];
+        let tl = lit(ctx, w, t);
+        let at = ctx.equal(s, tl);
+        let nx = ctx.not(x);
+        let c = ctx.implies(at, nx);
+        sys.constraints.push(c);
+    }
+    sys
+}
+
+/// random next-state logic from the shared expression generator (bit-vectors only, small widths)
+fn fam_random(ctx: &mut Context, rng: &mut Rng, special: u64) -> TransitionSystem {
+    let mut sys = TransitionSystem::new("random".to_string());
+    let widths: Vec<WidthInt> = vec![1, 1, 2, 2, 3];
+    let n_states = rng.range(1, 3);
+    let n_inputs = rng.range(0, 2);
+    let mut state_syms = vec![];
+    let mut bits = 0;
+    for k in 0..n_states {
+        let w = *rng.pick(&widths);
+        if bits + w > 8 {
+            break;
+        }
+        bits += w;
+        state_syms.push(ctx.bv_symbol(&format!("s{k}"), w));
+    }
+    let mut input_syms = vec![];
+    let mut ibits = 0;
+    for k in 0..n_inputs {
+        let w = *rng.pick(&[1u32, 1, 2]);
+        if ibits + w > 3 {
+            break;
+        }
+        ibits += w;
+        let i = ctx.bv_symbol(&format!("i{k}"), w);
+        input_syms.push(i);
+        sys.add_input(ctx, i);
+    }
+    let gcfg = GenCfg {
+        max_depth: 3,
+        arrays: false,
+        div_rem: false,
+        array_eq: false,
+        widths: vec![1, 2, 3, 4],
+        max_index_width: 2,
+        syms_per_type: 1,
+        mul_max_width: 8,
+    };
+    let all: Vec<ExprRef> = state_syms.iter().chain(input_syms.iter()).copied().collect();
+    let mut gen_expr = |ctx: &mut Context, rng: &mut Rng, pool: Vec<ExprRef>, w: WidthInt, depth: u32| -> ExprRef {
+        let mut g = ExprGen::new(ctx, rng, gcfg.clone());
+        g.pool = Some(pool);
+        g.gen_bv(w, depth)
+    };
+    for (k, s) in state_syms.iter().enumerate() {
+        let w = s.get_bv_type(ctx).unwrap();
+        // special: 1 = some state without init, 2 = some state without next, 3 = constant state,
+        //          4 = an init expression reads an EARLIER state that has no init
+        let init = if special == 1 && (k == 0 || rng.chance(1, 2)) {
+            None
+        } else if special == 4 && k > 0 {
+            let e = gen_expr(ctx, rng, state_syms[..k].to_vec(), w, 1);
+            Some(e)
+        } else if special == 4 {
+            None
+        } else {
+            let v = rng.below(1u64 << w);
+            Some(lit(ctx, w, v))
+        };
+        let next = if special == 2 && (k == 0 || rng.chance(1, 3)) {
+            None
+        } else if special == 3 && (k == 0 || rng.chance(1, 3)) {
+            Some(*s)
+        } else {
+            let d = 1 + rng.below(3) as u32;
+            Some(gen_expr(ctx, rng, all.clone(), w, d))
+        };
+        add_state(ctx, &mut sys, *s, init, next);
+    }
+    for _ in 0..rng.range(1, 3) {
+        let e = gen_expr(ctx, rng, all.clone(), 1, 3);
+        sys.bad_states.push(e);
+    }
+    if rng.chance(1, 3) {
+        let e = gen_expr(ctx, rng, all.clone(), 1, 2);
+        sys.constraints.push(e);
+    }
+    sys
+}
+
+/// an init expression reads an input (the suspected PDR weakness: cubes are over states only)
+fn fam_init_input(ctx: &mut Context, rng: &mut Rng) -> TransitionSystem {
+    let mut sys = TransitionSystem::new("initinput".to_string());
+    let w = rng.range(1, 2) as WidthInt;
+    let i = ctx.bv_symbol("i", w);
+    sys.add_input(ctx, i);
+    let s = ctx.bv_symbol("s", w);
+    let init = match rng.below(3) {
+        0 => i,
+        1 => ctx.not(i),
+        _ => {
+            let one = lit(ctx, w, 1);
+            ctx.add(i, one)
+        }
+    };
+    let next = match rng.below(3) {
+        0 => s,
+        1 => {
+            let one = lit(ctx, w, 1);
+            ctx.add(s, one)
+        }
+        _ => ctx.xor(s, i),
+    };
+    add_state(ctx, &mut sys, s, Some(init), Some(next));
+    let bad = match rng.below(3) {
+        0 => ctx.distinct(s, i),
+        1 => ctx.equal(s, i),
+        _ => {
+            let t = lit(ctx, w, rng.below(1u64 << w));
+            let a = ctx.equal(s, t);
+            let b = ctx.distinct(i, t);
+            ctx.and(a, b)
+        }
+    };
+    sys.bad_states.push(bad);
+    sys
+}
+
+fn gen_family(ctx: &mut Context, rng: &mut Rng, fam: &str) -> TransitionSystem {
+    match fam {
+        "counter" => fam_counter(ctx, rng),
+        "shift" => fam_shift(ctx, rng),
+        "lockstep" => fam_lockstep(ctx, rng),
+        "ring" => fam_ring(ctx, rng),
+        "fsm" => fam_fsm(ctx, rng),
+        "random" => fam_random(ctx, rng, 0),
+        "noinit" => fam_random(ctx, rng, 1),
+        "freestate" => fam_random(ctx, rng, 2),
+        "conststate" => fam_random(ctx, rng, 3),
+        "initstate" => fam_random(ctx, rng, 4),
+        "initinput" => fam_init_input(ctx, rng),
+        other => panic!("unknown family {other}"),
+    }
+}
+
+const FAMILIES: &[(&str, u64)] = &[
+    ("counter", 18),
+    ("shift", 12),
+    ("lockstep", 12),
+    ("ring", 12),
+    ("fsm", 16),
+    ("random", 14),
+    ("noinit", 4),
+    ("freestate", 3),
+    ("conststate", 3),
+    ("initstate", 2),
+    ("initinput", 4),
+];
+
+fn pick_family(rng: &mut Rng) -> &'static str {
+    let total: u64 = FAMILIES.iter().map(|f| f.1).sum();
+    let mut k = rng.below(total);
+    for (name, wgt) in FAMILIES {
+        if k < *wgt {
+            return name;
+        }
+        k -= wgt;
+    }
+    unreachable!()
+}
+
+// ------------------------------------------------------------------------------------------------
+// the harness's own explicit-state classification (statistics and steering only)
+// ------------------------------------------------------------------------------------------------
+
+#[derive(Clone, Debug)]
+struct Class {
+    /// None = safe, Some(d) = least depth of a bad valuation
+    depth: Option<u32>,
+    reached: usize,
+    layers: u32,
+    /// number of backward breadth-first layers from the bad states over the state graph (an upper
+    /// estimate of the number of frames PDR needs on a safe system)
+    bwd_layers: u32,
+    bad_satisfiable: bool,
+    prop_inductive: bool,
+    state_bits: u32,
+    input_bits: u32,
+}
+
+impl Class {
+    fn label(&self) -> String {
+        match self.depth {
+            Some(d) => format!("unsafe-d{d}"),
+            None => {
+                if !self.bad_satisfiable {
+                    "safe-bad-unsat".into()
+                } else if self.prop_inductive {
+                    "safe-prop-inductive".into()
+                } else {
+                    "safe-needs-strengthening".into()
+                }
+            }
+        }
+    }
+}
+
+fn sym_width(ctx: &Context, e: ExprRef) -> u32 {
+    e.get_bv_type(ctx).expect("bit-vector symbol")
+}
+
+fn classify(ctx: &Context, sys: &TransitionSystem) -> Option<Class> {
+    let sw: Vec<u32> = sys.states.iter().map(|s| sym_width(ctx, s.symbol)).collect();
+    let iw: Vec<u32> = sys.inputs.iter().map(|s| sym_width(ctx, *s)).collect();
+    let sbits: u32 = sw.iter().sum();
+    let ibits: u32 = iw.iter().sum();
+    if sbits > 10 || ibits > 3 {
+        return None;
+    }
+    let ns = 1usize << sbits;
+    let ni = 1usize << ibits;
+    let mut sim = Interpreter::new(ctx, sys);
+    sim.init(InitKind::Zero);
+    let split = |mut v: usize, ws: &[u32]| -> Vec<u64> {
+        ws.iter()
+            .map(|w| {
+                let x = (v & ((1usize << w) - 1)) as u64;
+                v >>= w;
+                x
+            })
+            .collect()
+    };
+    let join = |vals: &[u64], ws: &[u32]| -> usize {
+        let mut acc = 0usize;
+        let mut sh = 0;
+        for (v, w) in vals.iter().zip(ws.iter()) {
+            acc |= (*v as usize) << sh;
+            sh += w;
+        }
+        acc
+    };
+    let getu = |sim: &Interpreter, e: ExprRef| -> u64 {
+        match sim.get(e) {
+            Value::BitVec(v) => v.to_u64().unwrap(),
+            _ => panic!("array"),
+        }
+    };
+    // per node (s, i): cons, bad, init-ok, successor state (free states = None)
+    let mut cons = vec![false; ns * ni];
+    let mut bad = vec![false; ns * ni];
+    let mut init_ok = vec![false; ns * ni];
+    let mut succ: Vec<Vec<Option<u64>>> = vec![vec![]; ns * ni];
+    for s in 0..ns {
+        let svals = split(s, &sw);
+        for i in 0..ni {
+            let ivals = split(i, &iw);
+            for (st, v) in sys.states.iter().zip(svals.iter()) {
+                sim.set(st.symbol, &BitVecValue::from_u64(*v, sym_width(ctx, st.symbol)));
+            }
+            for (inp, v) in sys.inputs.iter().zip(ivals.iter()) {
+                sim.set(*inp, &BitVecValue::from_u64(*v, sym_width(ctx, *inp)));
+            }
+            let n = s * ni + i;
+            cons[n] = sys.constraints.iter().all(|c| getu(&sim, *c) == 1);
+            bad[n] = sys.bad_states.iter().any(|b| getu(&sim, *b) == 1);
+            init_ok[n] = sys.states.iter().zip(svals.iter()).all(|(st, v)| match st.init {
+                Some(e) => getu(&sim, e) == *v,
+                None => true,
+            });
+            succ[n] = sys.states.iter().map(|st| st.next.map(|e| getu(&sim, e))).collect();
+        }
+    }
+    let state_has_cons: Vec<bool> = (0..ns).map(|s| (0..ni).any(|i| cons[s * ni + i])).collect();
+    // expand the free states of a successor vector into concrete state indices
+    let expand = |sv: &Vec<Option<u64>>| -> Vec<usize> {
+        let mut outs: Vec<Vec<u64>> = vec![vec![]];
+        for (k, v) in sv.iter().enumerate() {
+            let choices: Vec<u64> = match v {
+                Some(x) => vec![*x],
+                None => (0..(1u64 << sw[k])).collect(),
+            };
+            let mut n2 = vec![];
+            for o in outs.iter() {
+                for c in choices.iter() {
+                    let mut o2 = o.clone();
+                    o2.push(*c);
+                    n2.push(o2);
+                }
+            }
+            outs = n2;
+        }
+        outs.iter().map(|vals| join(vals, &sw)).collect()
+    };
+    // BFS over nodes
+    let mut seen = vec![false; ns * ni];
+    let mut frontier: Vec<usize> = (0..ns * ni).filter(|&n| init_ok[n] && cons[n]).collect();
+    for &n in frontier.iter() {
+        seen[n] = true;
+    }
+    let mut depth = None;
+    let mut layers = 0u32;
+    let mut reached = frontier.len();
+    let mut d = 0u32;
+    while !frontier.is_empty() {
+        layers += 1;
+        if frontier.iter().any(|&n| bad[n]) {
+            depth = Some(d);
+            break;
+        }
+        let mut next = vec![];
+        for &n in frontier.iter() {
+            for s2 in expand(&succ[n]) {
+                for i2 in 0..ni {
+                    let m = s2 * ni + i2;
+                    if cons[m] && !seen[m] {
+                        seen[m] = true;
+                        next.push(m);
+                    }
+                }
+            }
+        }
+        reached += next.len();
+        frontier = next;
+        d += 1;
+    }
+    let bad_satisfiable = (0..ns * ni).any(|n| cons[n] && bad[n]);
+    // P(s) = no input makes s bad under the constraints
+    let p: Vec<bool> = (0..ns).map(|s| !(0..ni).any(|i| cons[s * ni + i] && bad[s * ni + i])).collect();
+    let mut prop_inductive = true;
+    'outer: for s in 0..ns {
+        if !p[s] {
+            continue;
+        }
+        for i in 0..ni {
+            if !cons[s * ni + i] {
+                continue;
+            }
+            for s2 in expand(&succ[s * ni + i]) {
+                if state_has_cons[s2] && !p[s2] {
+                    prop_inductive = false;
+                    break 'outer;
+                }
+            }
+        }
+    }
+    // backward layers over states
+    let mut preds: Vec<Vec<usize>> = vec![vec![]; ns];
+    for s in 0..ns {
+        for i in 0..ni {
+            if !cons[s * ni + i] {
+                continue;
+            }
+            for s2 in expand(&succ[s * ni + i]) {
+                if state_has_cons[s2] {
+                    preds[s2].push(s);
+                }
+            }
+        }
+    }
+    let mut bseen = vec![false; ns];
+    let mut bfront: Vec<usize> = (0..ns).filter(|&s| !p[s]).collect();
+    for &s in bfront.iter() {
+        bseen[s] = true;
+    }
+    let mut bwd_layers = 0u32;
+    while !bfront.is_empty() {
+        bwd_layers += 1;
+        let mut next = vec![];
+        for &s in bfront.iter() {
+            for &q in preds[s].iter() {
+                if !bseen[q] {
+                    bseen[q] = true;
+                    next.push(q);
+                }
+            }
+        }
+        bfront = next;
+    }
+    Some(Class { depth, reached, layers, bwd_layers, bad_satisfiable, prop_inductive, state_bits: sbits, input_bits: ibits })
+}
+
+// ------------------------------------------------------------------------------------------------
+// cases
+// ------------------------------------------------------------------------------------------------
+
+#[derive(Clone)]
+struct RunCfg {
+    solver: String,
+    gen_on: bool,
+    sseed: u64,
+}
+
+#[derive(Clone)]
+struct Job {
+    id: String,
+    family: String,
+    class: String,
+    sys_text: String,
+    cfg: RunCfg,
+}
+
+fn configs(tier_runs: &str) -> Vec<RunCfg> {
+    // "z3:0,1,2;cvc5:0,1"
+    let mut out = vec![];
+    for part in tier_runs.split(';') {
+        let (solver, seeds) = part.split_once(':').expect("runs syntax solver:seed,seed;...");
+        for s in seeds.split(',') {
+            for gen_on in [true, false] {
+                if solver == "pushpop" && gen_on {
+                    continue; // the profile has no get-unsat-assumptions: generalisation cannot be enabled
+                }
+                out.push(RunCfg { solver: solver.to_string(), gen_on, sseed: s.parse().expect("seed") });
+            }
+        }
+    }
+    out
+}
+
+fn parent(args: &Args) {
+    let mut rng = Rng::new(args.seed);
+    let mut stats = Stats::default();
+    let runs = args.get("runs").unwrap_or("z3:0,1,2;cvc5:0,1").to_string();
+    let cfgs = configs(&runs);
+    let jobs_n = args.get_u64("jobs", 6) as usize;
+    let watchdog = args.get_u64("watchdog", WATCHDOG_S);
+    let only_family = args.get("family").map(|s| s.to_string());
+    // systems with at most `full_bits` state bits get every configuration; larger ones (up to 10 state
+    // bits) only z3 with generalisation (without generalisation, and with cvc5's cores, the number of
+    // queries grows with the number of states and the 60 s watchdog would measure speed, not hangs)
+    let full_bits = args.get_u64("full-bits", 4) as u32;
+    let small_share = args.get_u64("small-share", 70);
+    // cvc5's unsat cores generalise poorly (1 933 queries on a 32-state system): cvc5 only up to cvc5-bits
+    let cvc5_bits = args.get_u64("cvc5-bits", 4) as u32;
+    let mut jobs: Vec<Job> = vec![];
+    let mut distinct_sys = HashSet::new();
+
+    if let Some(path) = args.get("cases-in") {
+        for c in read_cases(path).iter() {
+            let id = c.list()[1].atom().to_string();
+            let fam = c.field("family").map(|f| f[0].atom().to_string()).unwrap_or_else(|| "replay".into());
+            let sys_sexp = c.list().iter().find(|x| matches!(x, Sexp::List(l) if !l.is_empty() && matches!(&l[0], Sexp::Atom(a) if a == "sys"))).expect("(sys ...) field");
+            let mut ctx = Context::default();
+            let sys = build_sys(&mut ctx, sys_sexp);
+            let sys_text = dump_sys(&ctx, &sys);
+            let class = guarded(|| classify(&ctx, &sys)).ok().flatten().map(|c| c.label()).unwrap_or_else(|| "unclassified".into());
+            let cfg = RunCfg {
+                solver: c.field("solver").map(|f| f[0].atom().to_string()).unwrap_or_else(|| "z3".into()),
+                gen_on: c.field("gen").map(|f| f[0].atom() == "on").unwrap_or(true),
+                sseed: c.field("sseed").map(|f| f[0].num()).unwrap_or(0),
+            };
+            stats.bump("family", &fam);
+            stats.bump("class", &class);
+            distinct_sys.insert(sys_text.clone());
+            jobs.push(Job { id, family: fam, class, sys_text, cfg });
+        }
+    }
+
+    // generation: steer towards a split with a good share of safe-but-not-trivially systems
+    let want = args.count;
+    let mut produced = 0u64;
+    let mut attempts = 0u64;
+    let mut n_by_kind: HashMap<&'static str, u64> = HashMap::new();
+    while produced < want && attempts < want * 300 + 1000 {
+        attempts += 1;
+        let mut r = rng.fork();
+        let fam = match &only_family {
+            Some(f) => FAMILIES.iter().find(|x| x.0 == f).map(|x| x.0).expect("family"),
+            None => pick_family(&mut r),
+        };
+        let mut ctx = Context::default();
+        let sys = gen_family(&mut ctx, &mut r, fam);
+        let Some(class) = classify(&ctx, &sys) else {
+            stats.inc("rejected_too_large");
+            continue;
+        };
+        // shares: at most 45% unsafe, at most 20% trivially safe; the rest must need strengthening.
+        // (the special families are exempt: they exist for their structure)
+        let kind: &'static str = match class.depth {
+            Some(_) => "unsafe",
+            None if class.bad_satisfiable && !class.prop_inductive => "safe-nontrivial",
+            None => "safe-trivial",
+        };
+        let special = matches!(fam, "noinit" | "freestate" | "conststate" | "initstate" | "initinput");
+        if class.bwd_layers > 13 {
+            // a long backward chain from the bad states means many frames and thousands of queries:
+            // that would test the watchdog against speed, not against hangs
+            stats.inc("rejected_long_backward_chain");
+            continue;
+        }
+        if only_family.is_none() {
+            let want_small = r.chance(small_share, 100);
+            if want_small != (class.state_bits <= full_bits) {
+                stats.inc("rejected_by_size_share");
+                continue;
+            }
+        }
+        if special {
+            // the structural families together take at most 15% of the systems
+            let nsp = *n_by_kind.get("special").unwrap_or(&0);
+            if nsp >= (want * 15) / 100 + 1 {
+                stats.inc("rejected_by_special_share");
+                continue;
+            }
+        }
+        {
+            let n = *n_by_kind.get(kind).unwrap_or(&0);
+            let cap = match kind {
+                "unsafe" => (want * 40) / 100 + 1,
+                "safe-trivial" => (want * 12) / 100 + 1,
+                _ => want,
+            };
+            if n >= cap {
+                stats.inc("rejected_by_steering");
+                continue;
+            }
+            if let Some(d) = class.depth {
+                if d > 14 {
+                    stats.inc("rejected_too_deep");
+                    continue;
+                }
+                // spread the depths: no depth bucket may take more than a quarter of the unsafe share
+                let b: &'static str = match d {
+                    0 => "depth0",
+                    1 => "depth1",
+                    2..=3 => "depth2-3",
+                    4..=6 => "depth4-6",
+                    _ => "depth7-14",
+                };
+                let nb = *n_by_kind.get(b).unwrap_or(&0);
+                if nb >= cap / 4 + 1 {
+                    stats.inc("rejected_by_depth_steering");
+                    continue;
+                }
+                *n_by_kind.entry(b).or_insert(0) += 1;
+            }
+        }
+        let sys_text = dump_sys(&ctx, &sys);
+        if !distinct_sys.insert(sys_text.clone()) {
+            stats.inc("rejected_duplicate");
+            continue;
+        }
+        *n_by_kind.entry(kind).or_insert(0) += 1;
+        if special {
+            *n_by_kind.entry("special").or_insert(0) += 1;
+        }
+        let label = class.label();
+        stats.bump("family", fam);
+        stats.bump("class", &label);
+        stats.bump("kind", kind);
+        stats.bump("family_x_kind", &format!("{fam}:{kind}"));
+        stats.bump("state_bits", &format!("{}", class.state_bits));
+        stats.bump("input_bits", &format!("{}", class.input_bits));
+        stats.bump("reached_valuations", &bucket(class.reached as u64));
+        stats.bump("bfs_layers", &format!("{}", class.layers.min(20)));
+        stats.bump("backward_layers_from_bad", &format!("{}", class.bwd_layers));
+        stats.bump("n_bads", &format!("{}", sys.bad_states.len()));
+        stats.bump("n_constraints", &format!("{}", sys.constraints.len()));
+        let full = class.state_bits <= full_bits;
+        stats.bump("config_set", if full { "all-configurations" } else { "z3-generalisation-on-only" });
+        for (k, cfg) in cfgs.iter().enumerate() {
+            if !full && !(cfg.solver == "z3" && cfg.gen_on) {
+                continue;
+            }
+            if cfg.solver == "cvc5" && class.state_bits > cvc5_bits {
+                continue;
+            }
+            // cvc5 seed 2 = --minimal-unsat-cores: 0.2-0.35 s per (get-unsat-assumptions); the relational
+            // families need 100-250 queries at 4 state bits, which is the watchdog's whole budget
+            if cfg.solver == "cvc5" && cfg.sseed == 2 && cfg.gen_on && class.state_bits > 3 && matches!(fam, "lockstep" | "fsm" | "ring") {
+                stats.inc("minimal_core_runs_skipped_expensive");
+                continue;
+            }
+            jobs.push(Job { id: format!("{produced}.{k}"), family: fam.to_string(), class: label.clone(), sys_text: sys_text.clone(), cfg: cfg.clone() });
+        }
+        produced += 1;
+    }
+    stats.add("systems", distinct_sys.len() as u64);
+
+    // run
+    let mut results = run_jobs(&jobs, jobs_n, watchdog);
+    // A run that hit the watchdog while this harness (and whatever else shares the machine) was
+    // running many solvers in parallel is repeated once, alone, under the same watchdog: the
+    // watchdog is meant to catch hangs, not a loaded machine.  A genuine hang times out again.
+    for k in 0..jobs.len() {
+        if results[k].kind == "timeout" {
+            stats.inc("timeouts_in_parallel_phase");
+            let again = run_one(&jobs[k], watchdog);
+            if again.kind != "timeout" {
+                stats.inc("timeouts_gone_when_rerun_alone");
+                results[k] = again;
+            }
+        }
+    }
+    let mut out = std::io::BufWriter::new(std::fs::File::create(&args.out).expect("out file"));
+    let mut distinct = HashSet::new();
+    let mut script_hashes: HashMap<String, HashSet<String>> = HashMap::new();
+    for (job, res) in jobs.iter().zip(results.iter()) {
+        let line = format!(
+            "(case {} (family {}) (class {}) (solver {}) (gen {}) (sseed {}) {} {})",
+            job.id,
+            job.family,
+            job.class,
+            job.cfg.solver,
+            if job.cfg.gen_on { "on" } else { "off" },
+            job.cfg.sseed,
+            job.sys_text,
+            res.fields
+        );
+        distinct.insert(format!("{} {} {} {}", job.sys_text, job.cfg.solver, job.cfg.gen_on, job.cfg.sseed));
+        stats.bump("impl_result", &res.kind);
+        stats.bump("impl_result_x_kind", &format!("{}:{}", res.kind, job.class.split("-d").next().unwrap_or("")));
+        stats.bump("config", &format!("{}:gen-{}:seed{}", job.cfg.solver, if job.cfg.gen_on { "on" } else { "off" }, job.cfg.sseed));
+        stats.bump("run_ms", &bucket(res.ms));
+        stats.bump("queries", &bucket(res.queries));
+        if !res.sim.is_empty() {
+            stats.bump("witness_replay", &res.sim);
+        }
+        script_hashes.entry(format!("{}|{}", job.sys_text, job.cfg.gen_on)).or_default().insert(res.hash.clone());
+        stats.sample(&line, 3);
+        writeln!(out, "{line}").unwrap();
+    }
+    // diversity of the solver conversations: distinct SMT scripts per (system, mode) over solvers x seeds
+    for (_, hs) in script_hashes.iter() {
+        stats.bump("distinct_scripts_per_system_and_mode", &format!("{}", hs.len()));
+    }
+    stats.add("distinct_cases", distinct.len() as u64);
+    stats.write(&args.out);
+}
+
+fn bucket(n: u64) -> String {
+    let edges = [0u64, 1, 2, 5, 10, 20, 50, 100, 200, 500, 1000, 2000, 5000, 10000, 30000, 60000];
+    for w in edges.windows(2) {
+        if n < w[1] {
+            return format!("{}..{}", w[0], w[1] - 1);
+        }
+    }
+    ">=60000".into()
+}
+
+struct RunResult {
+    fields: String,
+    kind: String,
+    sim: String,
+    ms: u64,
+    queries: u64,
+    hash: String,
+}
+
+fn run_jobs(jobs: &[Job], threads: usize, watchdog: u64) -> Vec<RunResult> {
+    let n = jobs.len();
+    let next = Arc::new(Mutex::new(0usize));
+    let results: Arc<Mutex<Vec<Option<RunResult>>>> = Arc::new(Mutex::new((0..n).map(|_| None).collect()));
+    let jobs_arc: Arc<Vec<Job>> = Arc::new(jobs.to_vec());
+    let mut handles = vec![];
+    for _ in 0..threads.max(1) {
+        let next = next.clone();
+        let results = results.clone();
+        let jobs = jobs_arc.clone();
+        handles.push(std::thread::spawn(move || {
+            loop {
+                let k = {
+                    let mut g = next.lock().unwrap();
+                    let k = *g;
+                    *g += 1;
+                    k
+                };
+                if k >= jobs.len() {
+                    break;
+                }
+                let r = run_one(&jobs[k], watchdog);
+                results.lock().unwrap()[k] = Some(r);
+            }
+        }));
+    }
+    for h in handles {
+        h.join().expect("runner thread");
+    }
+    let mut g = results.lock().unwrap();
+    g.drain(..).map(|r| r.expect("result")).collect()
+}
+
+fn wrap_dir() -> String {
+    std::env::var("C10_WRAP_DIR").unwrap_or_else(|_| concat!(env!("CARGO_MANIFEST_DIR"), "/solver-wrap").to_string())
+}
+
+fn run_one(job: &Job, watchdog: u64) -> RunResult {
+    use std::os::unix::process::CommandExt;
+    use std::process::{Command, Stdio};
+    let exe = std::env::current_exe().expect("current_exe");
+    let start = Instant::now();
+    let real_path = std::env::var("PATH").unwrap_or_default();
+    let mut child = Command::new(exe)
+        .args(["C10", "--worker", "1", "--solver", &job.cfg.solver, "--gen", if job.cfg.gen_on { "on" } else { "off" }, "--sseed", &job.cfg.sseed.to_string()])
+        .env("PATH", format!("{}:{}", wrap_dir(), real_path))
+        .env("C10_REAL_PATH", &real_path)
+        .env("C10_SOLVER_SEED", job.cfg.sseed.to_string())
+        .env("RUST_BACKTRACE", "0")
+        .stdin(Stdio::piped())
+        .stdout(Stdio::piped())
+        .stderr(Stdio::null())
+        .process_group(0)
+        .spawn()
+        .expect("spawn worker");
+    let pid = child.id();
+    {
+        let mut stdin = child.stdin.take().unwrap();
+        let _ = stdin.write_all(job.sys_text.as_bytes());
+        let _ = stdin.write_all(b"\n");
+    }
+    // read stdout in a thread so that a large witness cannot block the child
+    let mut stdout = child.stdout.take().unwrap();
+    let reader = std::thread::spawn(move || {
+        let mut s = String::new();
+        let _ = stdout.read_to_string(&mut s);
+        s
+    });
+    let deadline = start + Duration::from_secs(watchdog);
+    let mut timed_out = false;
+    let status = loop {
+        match child.try_wait() {
+            Ok(Some(st)) => break Some(st),
+            Ok(None) => {
+                if Instant::now() >= deadline {
+                    timed_out = true;
+                    let _ = Command::new("kill").args(["-9", "--", &format!("-{pid}")]).status();
+                    let _ = child.wait();
+                    break None;
+                }
+                std::thread::sleep(Duration::from_millis(3));
+            }
+            Err(_) => break None,
+        }
+    };
+    // make sure no solver process of this group survives
+    let _ = Command::new("kill").args(["-9", "--", &format!("-{pid}")]).stderr(Stdio::null()).status();
+    let text = reader.join().unwrap_or_default();
+    if timed_out || status.map(|s| !s.success()).unwrap_or(true) {
+        // the worker could not clean up its recorded SMT conversation
+        let _ = std::fs::remove_file(format!("c10-tmp/{pid}.smt2"));
+    }
+    let ms = start.elapsed().as_millis() as u64;
+    let line = text.lines().find(|l| l.starts_with("(impl")).map(|l| l.to_string());
+    let (fields, kind, sim, queries, hash) = if timed_out {
+        ("(impl timeout) (sim none) (script none)".to_string(), "timeout".to_string(), String::new(), 0, "timeout".to_string())
+    } else if let Some(l) = line {
+        let sx = Sexp::parse(&format!("(w {l})")).expect("worker line");
+        let imp = &sx.field("impl").unwrap()[0];
+        let kind = match imp {
+            Sexp::Atom(a) => a.clone(),
+            Sexp::List(l) => l[0].atom().to_string(),
+            _ => "?".into(),
+        };
+        let sim = sx.field("sim").map(|f| f[0].atom().to_string()).unwrap_or_default();
+        let (q, h) = match sx.field("script") {
+            Some(f) if matches!(&f[0], Sexp::List(_)) => {
+                let sc = Sexp::List(f.to_vec());
+                (sc.field("queries").map(|x| x[0].num()).unwrap_or(0), sc.field("hash").map(|x| x[0].atom().to_string()).unwrap_or_default())
+            }
+            _ => (0, String::new()),
+        };
+        (l, kind, if kind_is_fail(&sx) { sim } else { String::new() }, q, h)
+    } else {
+        let st = status.map(|s| format!("{s}")).unwrap_or_else(|| "unknown".into());
+        (format!("(impl (crash {})) (sim none) (script none)", quote(&st)), "crash".to_string(), String::new(), 0, "crash".to_string())
+    };
+    RunResult { fields: format!("{fields} (ms {ms})"), kind, sim, ms, queries, hash }
+}
+
+fn kind_is_fail(sx: &Sexp) -> bool {
+    matches!(&sx.field("impl").unwrap()[0], Sexp::List(l) if l[0].atom() == "fail")
+}
+
+// ------------------------------------------------------------------------------------------------
+// worker: one run of the real pdr
+// ------------------------------------------------------------------------------------------------
+
+fn worker(args: &Args) {
+    let mut text = String::new();
+    std::io::stdin().read_to_string(&mut text).expect("stdin");
+    let sx = Sexp::parse(text.trim()).expect("system s-expression");
+    let mut ctx = Context::default();
+    let sys = build_sys(&mut ctx, &sx);
+    let solver = match args.get("solver").unwrap_or("z3") {
+        "z3" => Z3,
+        "cvc5" => CVC5,
+        // the push/pop interaction style: patronus' YICES2 profile, z3 behind the name (solver-wrap/yices-smt2)
+        "pushpop" => YICES2,
+        other => panic!("unknown solver {other}"),
+    };
+    let gen_on = args.get("gen").unwrap_or("on") == "on";
+    let engine_bmc = args.get("engine") == Some("bmc");
+    // SMT conversation is recorded (patronus' own replay-file feature) for the script statistics
+    let dir = "c10-tmp";
+    let _ = std::fs::create_dir_all(dir);
+    let script_path = format!("{dir}/{}.smt2", std::process::id());
+    let file = std::fs::File::create(&script_path).expect("script file");
+    let res = guarded(|| {
+        let mut smt_ctx = solver.start(Some(file)).map_err(|e| format!("start: {e}"))?;
+        if engine_bmc {
+            // only for cross-checking a finding by hand: patronus' own bounded engine on the same system
+            bmc(&mut ctx, &mut smt_ctx, &sys, false, false, 20).map_err(|e| format!("{e}"))
+        } else {
+            pdr(&mut ctx, &mut smt_ctx, &sys, !gen_on).map_err(|e| format!("{e}"))
+        }
+    });
+    let (impl_s, sim_s) = match res {
+        Err(msg) => (format!("(panic {} {})", quote(&last_panic_loc()), quote(&truncate(&msg, 200))), "none".to_string()),
+        Ok(Err(e)) => (format!("(err {})", quote(&truncate(&e, 300))), "none".to_string()),
+        Ok(Ok(ModelCheckResult::Success)) => ("success".to_string(), "none".to_string()),
+        Ok(Ok(ModelCheckResult::Unknown)) => ("unknown".to_string(), "none".to_string()),
+        Ok(Ok(ModelCheckResult::Fail(wit))) => {
+            let sim = match guarded(|| replay_witness(&ctx, &sys, &wit)) {
+                Ok(s) => s,
+                Err(_) => format!("panic@{}", last_panic_loc()),
+            };
+            (format!("(fail {})", dump_witness(&wit)), sim)
+        }
+    };
+    let script = script_stats(&script_path);
+    let _ = std::fs::remove_file(&script_path);
+    println!("(impl {impl_s}) (sim {sim_s}) (script {script})");
+}
+
+fn truncate(s: &str, n: usize) -> String {
+    let mut t: String = s.chars().take(n).collect();
+    if t.len() < s.len() {
+        t.push_str("...");
+    }
+    t
+}
+
+fn dump_witness(w: &Witness) -> String {
+    let mut s = String::from("(wit (init");
+    for v in w.init.iter() {
+        match v {
+            InitValue::BitVec(b) => s.push_str(&format!(" {}", bv_tok(b))),
+            InitValue::Array(_, _) => s.push_str(" array"),
+            InitValue::None => s.push_str(" none"),
+        }
+    }
+    s.push_str(") (inputs");
+    for step in w.inputs.iter() {
+        s.push_str(" (");
+        for (k, v) in step.iter().enumerate() {
+            if k > 0 {
+                s.push(' ');
+            }
+            match v {
+                Some(Value::BitVec(b)) => s.push_str(&bv_tok(b)),
+                Some(Value::Array(_)) => s.push_str("array"),
+                None => s.push_str("none"),
+            }
+        }
+        s.push(')');
+    }
+    s.push_str(") (failed");
+    for f in w.failed_safety.iter() {
+        s.push_str(&format!(" {f}"));
+    }
+    s.push_str("))");
+    s
+}
+
+/// Replay a witness through patronus' interpreter: init equations at step 0, every constraint at
+/// every step, some bad state (and every listed one) at the last step.
+fn replay_witness(ctx: &Context, sys: &TransitionSystem, wit: &Witness) -> String {
+    if sys.states.iter().any(|s| s.next.is_none()) {
+        // a witness carries no values for a state without next function after step 0
+        return "na-free-state".into();
+    }
+    if wit.inputs.is_empty() {
+        return "no-steps".into();
+    }
+    if wit.init.len() != sys.states.len() {
+        return "init-length".into();
+    }
+    let mut sim = Interpreter::new(ctx, sys);
+    sim.init(InitKind::Zero);
+    let mut state_vals = vec![];
+    for (st, v) in sys.states.iter().zip(wit.init.iter()) {
+        match v {
+            InitValue::BitVec(b) => {
+                if b.width() != sym_width(ctx, st.symbol) {
+                    return "init-width".into();
+                }
+                sim.set(st.symbol, b);
+                state_vals.push(b.clone());
+            }
+            _ => return "init-missing".into(),
+        }
+    }
+    let last = wit.inputs.len() - 1;
+    for (k, step) in wit.inputs.iter().enumerate() {
+        if step.len() != sys.inputs.len() {
+            return format!("inputs-length@{k}");
+        }
+        for (inp, v) in sys.inputs.iter().zip(step.iter()) {
+            match v {
+                Some(Value::BitVec(b)) => {
+                    if b.width() != sym_width(ctx, *inp) {
+                        return format!("input-width@{k}");
+                    }
+                    sim.set(*inp, b)
+                }
+                _ => return format!("input-missing@{k}"),
+            }
+        }
+        if k == 0 {
+            for (j, st) in sys.states.iter().enumerate() {
+                if let Some(e) = st.init {
+                    match sim.get(e) {
+                        Value::BitVec(v) if v.is_equal(&state_vals[j]) => {}
+                        _ => return format!("init-mismatch:state{j}"),
+                    }
+                }
+            }
+        }
+        for (j, c) in sys.constraints.iter().enumerate() {
+            match sim.get(*c) {
+                Value::BitVec(v) if !v.is_zero() => {}
+                _ => return format!("constraint{j}-violated@{k}"),
+            }
+        }
+        if k == last {
+            let truth: Vec<bool> = sys.bad_states.iter().map(|b| matches!(sim.get(*b), Value::BitVec(v) if !v.is_zero())).collect();
+            if !truth.iter().any(|t| *t) {
+                return "no-bad-at-last-step".into();
+            }
+            if wit.failed_safety.is_empty() {
+                return "failed-safety-empty".into();
+            }
+            for f in wit.failed_safety.iter() {
+                if !truth.get(*f as usize).copied().unwrap_or(false) {
+                    return format!("failed-safety-{f}-not-bad");
+                }
+            }
+        } else {
+            sim.step();
+        }
+    }
+    "ok".into()
+}
+
+/// statistics of the recorded SMT conversation; a symbol declared/defined twice inside one
+/// solver session is the C04 encoding defect (duplicate definition)
+fn script_stats(path: &str) -> String {
+    let Ok(text) = std::fs::read_to_string(path) else {
+        return "none".into();
+    };
+    let mut queries = 0u64;
+    let mut sessions = 1u64;
+    let mut names: HashSet<String> = HashSet::new();
+    let mut dup: Option<String> = None;
+    let mut h: u64 = 0xcbf29ce484222325;
+    for line in text.lines() {
+        for b in line.bytes() {
+            h ^= b as u64;
+            h = h.wrapping_mul(0x100000001b3);
+        }
+        if line.starts_with("(check-sat") {
+            queries += 1;
+        } else if line.starts_with("(exit)") {
+            sessions += 1;
+            names.clear();
+        } else if line.starts_with("(declare-const ") || line.starts_with("(define-fun ") {
+            let rest = line.splitn(2, ' ').nth(1).unwrap_or("");
+            let name = if rest.starts_with('|') {
+                rest[1..].split('|').next().unwrap_or("").to_string()
+            } else {
+                rest.split(' ').next().unwrap_or("").to_string()
+            };
+            if !names.insert(name.clone()) && dup.is_none() {
+                dup = Some(name);
+            }
+        }
+    }
+    format!(
+        "(queries {queries}) (sessions {sessions}) (dupdef {}) (hash {:016x})",
+        match dup {
+            Some(n) => quote(&n),
+            None => "none".to_string(),
+        },
+        h
+    )
 }
